@@ -252,7 +252,7 @@ def _ptname(canon):
 # --------------------------------------------------------------------------
 # must-call: every success return passes each required accepted fact
 
-def check_must(prog, res, rule, fname, required, success="zero", file_hint=None, forbid_unknown=False):
+def check_must(prog, res, rule, fname, required, success="zero", file_hint=None, forbid_unknown=False, post_nonzero=None):
     """required: list of (label, predicate(facts) -> bool).  Every return whose class is success must satisfy all."""
     f = prog.funcs.get(fname)
     if f is None or f.body is None:
@@ -262,7 +262,7 @@ def check_must(prog, res, rule, fname, required, success="zero", file_hint=None,
     def on_return(e, rc, facts, node, cl, pend, env):
         rets.append((rc, facts, node.line, e, pend, cl))
 
-    vp.run_facts(f, prog, on_return=on_return, track_generic=True)
+    vp.run_facts(f, prog, on_return=on_return, track_generic=True, post_nonzero=post_nonzero)
     nsucc = 0
     missing = {}
     for rc, facts, line, e, pend, cl in rets:
